@@ -194,6 +194,12 @@ def run(ctx: Context, rep) -> None:
     rep.rule("C19.rust",
              "the native iterator refuses repeat=true, so each epoch is "
              "finite and the Python loop decides repetition")
+    # an endless stream must not be closed behind the helper's back: an
+    # asyncstdlib tool that closes its source ends the repetition after the
+    # first refill (same rule as C02.borrow)
+    from sa.rules.c02 import check_borrow, stream_scope
+    check_borrow(ctx, rep, "C19.borrow", stream_scope(ctx)[1])
+
 
 
 _DI = "src/sedpack/io/dataset_iteration.py"
